@@ -58,7 +58,7 @@ Proof. vm_compute. repeat split; reflexivity. Qed.
    output space unused)"); (2) a sync or full flush requested when nothing is pending, which returns Okay with output
    space to spare, has consumed all offered input, and everything emitted so far - without anything further - is
    header ++ whole stored blocks that the specification's prefix decoder decodes, ending on a byte boundary, to
-   exactly all input supplied so far *)
+   exactly all input supplied so far, and they end with the empty stored-block marker *)
 Theorem C12_level0_room_means_nothing_pending_partial :
   forall (data : list N) (flags wb : N) sched c rest acc n m out_len f r,
   hasf flags FLAG_RAW = true -> wb <= 15 ->
@@ -82,10 +82,15 @@ Theorem C12_level0_flush_with_room_is_a_flush_point_partial :
   r_status r = TOkay -> N.of_nat (length (r_out r)) < out_len ->
   r_in r = N.of_nat (length (firstn (N.to_nat m) rest)) /\
   n + r_in r <= N.of_nat (length data) /\
-  exists body blocks,
+  (exists body blocks,
     acc ++ r_out r = (if c_block_index (r_comp r) =? 0 then [] else hdr flags wb) ++ body /\
-    prefix_spec body = (Some (firstn (N.to_nat (n + r_in r)) data), 8 * N.of_nat (length body), true, false, blocks).
+    prefix_spec body = (Some (firstn (N.to_nat (n + r_in r)) data), 8 * N.of_nat (length body), true, false, blocks)) /\
+  (* ... and ends, on a byte boundary, with the empty stored-block marker 00 00 00 FF FF *)
+  exists pre, acc ++ r_out r = pre ++ sync_marker.
 Proof. exact level0_flush_point_api. Qed.
+
+Example C12_the_marker : sync_marker = [0; 0; 0; 255; 255].
+Proof. reflexivity. Qed.
 
 Example C12_a_flush_with_room :
   match run_calls (comp_new 528384 15) (repeat 66 100) [(40, 1000, 0)] [] 0 with
